@@ -2,8 +2,8 @@
 from props import matcher_common as mc
 
 NAMESPACE = 'C06'
-LEAN_TARGETS = ['MxV.Props.C06', 'MxV.Props.Slotted']
-THEOREMS = ['ordered_perm', 'ids_nodup_run', 'C06_tame', 'Slotted.C06_slotted']
+LEAN_TARGETS = ['MxV.Props.C06', 'MxV.Props.Slotted', 'MxV.Tables.D_witnesses_C06']
+THEOREMS = ['ordered_perm', 'ids_nodup_run', 'C06_tame', 'Slotted.C06_slotted', 'fails_on_wild_models']
 TRUSTED_BASE = ['Lean 4.33.0 kernel', 'axioms: propext, Quot.sound, Classical.choice only (audited per theorem)',
                 'translator extract/*.py (templates regenerated every run)',
                 'correspondence harness (real library vs Mfull on all 94 types, vs Msimple on the 68 Tame types)']
